@@ -102,7 +102,7 @@ def gen_probe_op(rng, trs_pool=None):
                 "kw": rng.choice(({}, {"preprocess": True},
                                   {"preprocess": True, "ocr_scrub": True},
                                   {"default_ns": "s"}))}
-    if r < 0.88:
+    if r < 0.87:
         return {"p": "find_sec", "text": corpus.gen_desc(rng)}
     if r < 0.93:
         items = [rng.choice(trs_pool) if rng.random() < 0.6
@@ -260,6 +260,17 @@ def _shadow_pair(rng):
 def gen_plan(rng):
     trs_pool = [corpus.gen_trs_string(rng) for _ in range(rng.randint(2, 4))]
     probe = [gen_probe_op(rng, trs_pool) for _ in range(rng.randint(1, 3))]
+    # setting-focused runs: one setting is switched on for the whole "job"
+    # (the probe and, through the batch-job priors, much of what ran before)
+    if rng.random() < 0.3:
+        fname = rng.choice([n for n in opgen.ALL_SETTINGS
+                            if n not in ("wait_to_parse", "layout")])
+        ftext = opgen.setting_to_text(fname, opgen.setting_value(
+            rng, fname, allow_false=False))
+        for op_ in probe:
+            if "config" in op_ and not isinstance(op_["config"], dict):
+                op_["config"] = ftext if not op_["config"] \
+                    else op_["config"] + "," + ftext
     shadow = None
     if rng.random() < 0.08:
         p_op, shadow = _shadow_pair(rng)
